@@ -16,6 +16,7 @@ import Restful.Lemmas.JsrMatch
 import Restful.Lemmas.StateShape
 import Restful.Lemmas.RouteUnique
 import Restful.Lemmas.SelPath
+import Restful.Lemmas.Translated
 namespace Restful
 namespace Props
 variable (E : ReEnv)
@@ -409,6 +410,10 @@ theorem C01_service_ids_witness :
 -- also: Restful.StateShape.globals_shape
 -- also: Restful.StateShape.consts_shape
 -- also: Restful.StateShape.routing_shape
+
+/-! The regenerated tie (tools/gotrans → Gen/Translated.lean, Lemmas/Translated.lean). -/
+-- also: Restful.Tie.trim_space_cutset
+-- also: Restful.Tie.selected_route_path
 
 end Props
 end Restful
